@@ -67,6 +67,24 @@ class Aw:
         return self.coro.__await__()
 
 
+def _mentions_corruption(e: BaseException) -> bool:
+    """A RuntimeError about the open child is reported - raised itself or chained/grouped."""
+    seen: set = set()
+    stack = [e]
+    while stack:
+        x = stack.pop()
+        if x is None or id(x) in seen:
+            continue
+        seen.add(id(x))
+        if isinstance(x, RuntimeError) and "child context" in str(x):
+            return True
+        if isinstance(x, BaseExceptionGroup):
+            stack.extend(x.exceptions)
+        stack.append(x.__cause__)
+        stack.append(x.__context__)
+    return False
+
+
 # =============================================================================== harness
 class H:
     def __init__(self, sim: Sim, plan: dict) -> None:
@@ -113,6 +131,23 @@ class H:
         sim.log("ctx_new", ctx=cid, parent=self.cid(ctx.parent), exp=exp, closed=ctx.closed)
         if b.get("pre_ops"):
             await self.ops(b["pre_ops"], cid)
+        if b.get("via"):
+            # entered later, from inside another context: the parent stays the context that
+            # was current at creation, and leaving restores the intermediate context
+            via = Context()
+            self.know(via, b["via"])
+            async with via:
+                self.at(b["via"], "via_enter")
+                await self._enter_block(b, ctx, cid, exp, b["via"])
+                self.at(b["via"], "via_after_child")
+            self.at(exp, "via_exit")
+            return
+        await self._enter_block(b, ctx, cid, exp, exp)
+
+    async def _enter_block(self, b: dict, ctx: Context, cid: str, exp: Any, outer: Any) -> None:
+        sim = self.sim
+        if b.get("via"):
+            sim.log("parent_at_entry", ctx=cid, parent=self.cid(ctx.parent), exp=exp)
         try:
             async with ctx as entered:
                 sim.log(
@@ -137,13 +172,13 @@ class H:
                 else:
                     sim.log("body_end", ctx=cid, how="return", exc=None, closed=ctx.closed)
         except BaseException as e:
-            sim.log("ctx_exit", ctx=cid, exc=describe(e), closed=ctx.closed, cur=self.cur(), exp=exp)
+            sim.log("ctx_exit", ctx=cid, exc=describe(e), closed=ctx.closed, cur=self.cur(), exp=outer)
             if b.get("post_ops"):
                 await self.ops(b["post_ops"], cid)
             if contains_cancel(e) or not b.get("catch", True) or sim.aborting:
                 raise
         else:
-            sim.log("ctx_exit", ctx=cid, exc=None, closed=ctx.closed, cur=self.cur(), exp=exp)
+            sim.log("ctx_exit", ctx=cid, exc=None, closed=ctx.closed, cur=self.cur(), exp=outer)
             if b.get("post_ops"):
                 await self.ops(b["post_ops"], cid)
 
@@ -249,7 +284,8 @@ class H:
         await owner.start_service_task(body, name, teardown_action=spec.get("action", "cancel"))
 
     async def corrupt(self, spec: dict) -> None:
-        """Leave a context while a child context entered from it is still open."""
+        """Leave a context while a child context entered from it is still open - cleanly,
+        with an exception, or with a cancellation in flight."""
         sim = self.sim
         p = Context()
         self.know(p, spec["pid"])
@@ -257,15 +293,33 @@ class H:
         c = Context()
         self.know(c, spec["cid"])
         await c.__aenter__()
-        sim.log("corrupt_begin", p=spec["pid"], c=spec["cid"], parent=self.cid(c.parent))
+        how = spec.get("how", "clean")
+        sim.log("corrupt_begin", p=spec["pid"], c=spec["cid"], parent=self.cid(c.parent), root=p.parent is None, how=how)
         try:
-            await p.__aexit__(None, None, None)
+            if how == "clean":
+                await p.__aexit__(None, None, None)
+            else:
+                try:
+                    raise self.tag.make("SimError" if how == "exception" else "SimFatal")
+                except BaseException as e:
+                    suppressed = await p.__aexit__(type(e), e, e.__traceback__)
+                    if not suppressed:
+                        raise
         except BaseException as e:
-            sim.log("corrupt_exit", p=spec["pid"], exc=describe(e), cls=type(e).__name__, closed=p.closed)
+            sim.log(
+                "corrupt_exit",
+                p=spec["pid"],
+                exc=describe(e),
+                cls=type(e).__name__,
+                closed=p.closed,
+                root=p.parent is None,
+                how=how,
+                reported=_mentions_corruption(e),
+            )
             if contains_cancel(e):
                 raise
         else:
-            sim.log("corrupt_exit", p=spec["pid"], exc=None, cls=None, closed=p.closed)
+            sim.log("corrupt_exit", p=spec["pid"], exc=None, cls=None, closed=p.closed, root=p.parent is None, how=how, reported=False)
         finally:
             with CancelScope(shield=True):
                 try:
@@ -297,6 +351,17 @@ class H:
                     await ctx.get_resource(Res, "nonexistent_")
                 elif op == "get_nowait":
                     ctx.get_resource_nowait(Res, "nonexistent_")
+                elif op in ("get_existing", "get_nowait_existing"):
+                    present = ctx.get_resources(Res)
+                    if not present:
+                        extra["skipped"] = True
+                    else:
+                        nm = sorted(present)[-1]
+                        if op == "get_existing":
+                            got = await ctx.get_resource(Res, nm)
+                        else:
+                            got = ctx.get_resource_nowait(Res, nm)
+                        extra["same"] = got is present[nm]
                 elif op == "get_opt":
                     extra["val"] = ctx.get_resource_nowait(Res, "nonexistent_", optional=True) is None
                 elif op == "add_td":
@@ -536,6 +601,9 @@ def make_main(plan: dict):
                     else:
                         await h.run_block(root, None)
                     h.at(None, "end")
+                    if plan.get("corrupt_root"):
+                        async with create_task_group() as tg:
+                            tg.start_soon(h.corrupt, plan["corrupt_root"], name="w:corrupt_root")
                 except BaseException as e:
                     sim.log("top_exc", exc=describe(e))
                     if contains_cancel(e) or sim.aborting:
@@ -598,6 +666,7 @@ def execute(plan: dict, *, want_digest: bool = False, want_trace: bool = False) 
         "vtime": sim.end_time,
         "sig": sim.signature(),
         "deadlock": sim.deadlock,
+        "crashed": sim.crashed,
         "step_limit": sim.step_limit,
         "fire_step": fire_step,
         "pilot_steps": pilot_steps,
@@ -815,6 +884,9 @@ def oracle(sim: Sim, plan: dict) -> list[dict]:
         elif kind == "ctx_new":
             if d["parent"] != d["exp"]:
                 v("C12.parent", "parent", f"new context {d['ctx']} has parent {d['parent']}, context current at creation was {d['exp']}")
+        elif kind == "parent_at_entry":
+            if d["parent"] != d["exp"]:
+                v("C12.parent", "entry_time", f"context {d['ctx']} created under {d['exp']} has parent {d['parent']} when entered from another context")
         elif kind == "ctx_enter":
             if d["cur"] != d["ctx"]:
                 v("C12.current", "inside", f"inside block of {d['ctx']} current_context() is {d['cur']}")
@@ -855,6 +927,8 @@ def oracle(sim: Sim, plan: dict) -> list[dict]:
                 if d["val"] is not want:
                     v("C13.closed", key, f"ctx {c}.closed is {d['val']} in state {state}")
                 continue
+            if d.get("skipped"):
+                continue
             if state in ("inactive", "closed") or (state == "closing" and op == "add_factory") or (
                 op == "enter"
             ):
@@ -863,7 +937,11 @@ def oracle(sim: Sim, plan: dict) -> list[dict]:
                 if not d.get("same_view", True):
                     v("C13.effect", key, f"rejected {op} on {c} in state {state} changed the visible resources")
             else:
+                if d.get("skipped"):
+                    continue
                 want_res = {
+                    "get_existing": "ok",
+                    "get_nowait_existing": "ok",
                     "add_resource": "ok",
                     "add_factory": "ok",
                     "get": "ResourceNotFound",
@@ -877,8 +955,16 @@ def oracle(sim: Sim, plan: dict) -> list[dict]:
                 if op == "add_resource" and res == "ok" and d.get("visible") is not True:
                     v("C13.effect", key, f"resource added to {c} in state {state} is not visible")
         elif kind == "corrupt_exit":
-            if d["cls"] != "RuntimeError":
-                v("C13.corruption", "silent", f"leaving {d['p']} with an open child gave {d['exc']}, expected RuntimeError")
+            if not d["reported"]:
+                key = "silent"
+                if d.get("root") and d.get("how") != "clean":
+                    key = "silent_root_failing_exit"
+                v(
+                    "C13.corruption",
+                    key,
+                    f"leaving {'root ' if d.get('root') else ''}context {d['p']} ({d.get('how')} exit) with an open child "
+                    f"gave {d['exc']}; the open child was not reported",
+                )
             if d["closed"] is not True:
                 v("C13.closed", "corrupt", f"{d['p']}.closed is {d['closed']} after a corrupt exit")
     return V
@@ -1068,6 +1154,9 @@ def gen_c12(g: G) -> dict:
                 if rng.random() < 0.3:
                     cb = g.cb()
                     b["body"].insert(0, ["reg", cb])
+                if rng.random() < 0.2:
+                    g.nctx += 1
+                    b["via"] = f"x{g.nctx}"
                 out.append(["child", b])
             elif r < 0.8 and depth < 4 and g.ntask < 8:
                 brs = []
@@ -1098,7 +1187,19 @@ def gen_c12(g: G) -> dict:
     return out
 
 
-OPS = ("add_resource", "add_factory", "get", "get_nowait", "get_opt", "add_td", "add_td_bad", "enter", "closed")
+OPS = (
+    "add_resource",
+    "add_factory",
+    "get",
+    "get_nowait",
+    "get_opt",
+    "get_existing",
+    "get_nowait_existing",
+    "add_td",
+    "add_td_bad",
+    "enter",
+    "closed",
+)
 
 
 def gen_c13(g: G) -> dict:
@@ -1140,12 +1241,36 @@ def gen_c13(g: G) -> dict:
         return b
 
     root = blk(0)
-    if rng.random() < 0.25:
+    if rng.random() < 0.3:
         g.nctx += 2
         root["body"].append(
-            ["par", [{"name": "corrupt", "body": [["corrupt", {"pid": f"x{g.nctx - 1}", "cid": f"x{g.nctx}"}]]}]]
+            [
+                "par",
+                [
+                    {
+                        "name": "corrupt",
+                        "body": [
+                            [
+                                "corrupt",
+                                {
+                                    "pid": f"x{g.nctx - 1}",
+                                    "cid": f"x{g.nctx}",
+                                    "how": rng.choice(("clean", "clean", "exception", "base_exception")),
+                                },
+                            ]
+                        ],
+                    }
+                ],
+            ]
         )
     out: dict[str, Any] = {"root": root}
+    if rng.random() < 0.15:
+        g.nctx += 2
+        out["corrupt_root"] = {
+            "pid": f"x{g.nctx - 1}",
+            "cid": f"x{g.nctx}",
+            "how": rng.choice(("clean", "clean", "exception", "base_exception")),
+        }
     if rng.random() < 0.2:
         out["cancel"] = {"frac": round(rng.random(), 4)}
     return out
